@@ -97,6 +97,7 @@ extern "C" void h_feat_iff()
 }
 // (i)+(iii) identities: two identity lists hash the same string iff they are equal as multisets
 static bool idEq(const IdT &a, const IdT &b) { return idCmp(a, b) == 0; }
+#if NID == 2   // (sep_vs.cpp includes this file with NID 3 for its own entry points)
 extern "C" void h_id_iff()
 {
     VpRaw<QXmppDiscoveryIq> ra, rb; QXmppDiscoveryIq *A = rawIq(ra), *B = rawIq(rb);
@@ -111,6 +112,7 @@ extern "C" void h_id_iff()
                              (na == 2 && ((idEq(ia[0], ib[0]) && idEq(ia[1], ib[1])) || (idEq(ia[0], ib[1]) && idEq(ia[1], ib[0])))));
     checkIff<true>(same, va, vb);
 }
+#endif
 
 // ---- extension form ----
 // field order in the form: a symbolic permutation of [FORM_TYPE, field 0, field 1]; value order inside a multi-valued field is
